@@ -10,6 +10,8 @@ import (
 
 	"verif/harness/vcommon"
 
+	clusterUtil "github.com/ovrclk/akash/provider/cluster/util"
+	atypes "github.com/ovrclk/akash/types"
 	"github.com/ovrclk/akash/util/veriftrace"
 )
 
@@ -17,6 +19,7 @@ import (
 //
 //	run  -scripts <ndjson of Script> -out <trace ndjson> [-timer-ms 15] [-wait-ms 20000]
 //	free -seed N -runs R -ops K -out <trace ndjson>        (randomised concurrent drivers, no gates)
+//	commit -in <ndjson of {v,n,d}> -out <ndjson of {v,n,d,out}>   (the real ComputeCommittedResources)
 //
 // Exit code 0: everything executed; 2: harness failure (inconclusive). The harness never judges.
 func Main(args []string) int {
@@ -34,6 +37,8 @@ func Main(args []string) int {
 		return mainRun(args[1:])
 	case "free":
 		return mainFree(args[1:])
+	case "commit":
+		return mainCommit(args[1:])
 	}
 	fmt.Fprintln(os.Stderr, "unknown mode", args[0])
 	return 2
@@ -83,5 +88,39 @@ func mainRun(args []string) int {
 		return 2
 	}
 	fmt.Printf("{\"scripts\":%d,\"steps\":%d}\n", n, steps)
+	return 0
+}
+
+func mainCommit(args []string) int {
+	fs := flag.NewFlagSet("commit", flag.ContinueOnError)
+	in := fs.String("in", "", "ndjson rows {v,n,d}")
+	out := fs.String("out", "", "ndjson rows {v,n,d,out}")
+	if err := fs.Parse(args); err != nil || *in == "" || *out == "" {
+		return 2
+	}
+	w, err := vcommon.NewWriter(*out)
+	if err != nil {
+		fmt.Fprintln(os.Stderr, err)
+		return 2
+	}
+	err = vcommon.ReadLines(*in, func(raw json.RawMessage) error {
+		var r struct {
+			V uint64 `json:"v"`
+			N int    `json:"n"`
+			D int    `json:"d"`
+		}
+		if err := json.Unmarshal(raw, &r); err != nil {
+			return err
+		}
+		got := clusterUtil.ComputeCommittedResources(factor([2]int{r.N, r.D}), atypes.NewResourceValue(r.V)).Value()
+		return w.Write(map[string]interface{}{"v": r.V, "n": r.N, "d": r.D, "out": got})
+	})
+	if cerr := w.Close(); err == nil {
+		err = cerr
+	}
+	if err != nil {
+		fmt.Fprintln(os.Stderr, "inventoryh:", err)
+		return 2
+	}
 	return 0
 }
